@@ -14,6 +14,7 @@ OWN = {
     'C08': ['right-products-equal-left-products-of-mirrored-run', 'no-validation-right-dataset-empty',
             'history-other-pipeline-run-before-right-dataset-empty-without-validation',
             'adding-cross-checking-leaves-left-disparity-unchanged', 'accepted-pipeline-runs-without-error'],
+    'C19': ['saved-configuration-replays-to-the-same-products', 'accepted-pipeline-runs-without-error'],
     'C15': ['matching-runs-once-per-scale-coarse-to-fine', 'last-scale-is-full-resolution', 'user-interval-at-each-scale',
             'right-user-interval-at-each-scale', 'coarsest-level-searches-user-interval-over-sf^(n-1)',
             'finer-level-interval-is-sf-times-disparity-range-of-coarser-map', 'each-step-once-per-scale-in-order-left-then-right',
